@@ -227,6 +227,8 @@ def gen_graph(r):
         pool.append("http://f/C0")          # same local name as http://e/C0
     classes = r.sample(pool, r.randint(1, min(4, len(pool))))
     nodes = [["I", "http://e/n%d" % i] for i in range(r.randint(2, 6))]
+    if r.random() < 0.04:
+        nodes.append(["I", "http://e/u@h"])     # an IRI with '@' (fixed shape-map syntax cannot carry it)
     nodes += [["B", "_:b%d" % i] for i in range(r.choice([0, 0, 1, 1, 2]))]
     props = ["http://e/p%d" % i for i in range(r.randint(1, 3))]
     G = []
@@ -346,7 +348,8 @@ def gen_layout(r, tg):
 MUTATIONS = ["drop_brace", "unknown_prefix_sel", "no_at", "two_at", "bare_label", "short_label", "unknown_prefix_label",
              "sparql_noquote", "sparql_twovars", "sparql_ask", "sparql_empty", "focus_two", "focus_none", "focus_wild_pred",
              "focus_two_tokens", "full_iri_sel", "unclosed_class", "empty_classes", "unknown_prefix_class",
-             "at_in_iri", "all_and_classes", "nothing", "lit_focus_term"]
+             "at_in_iri", "all_and_classes", "nothing", "lit_focus_term", "label_unclosed", "label_unopened",
+             "sel_unclosed", "focus_token_unopened"]
 
 
 def gen_raw(r, G, typing, classes, nodes, props):
@@ -374,6 +377,10 @@ def gen_raw(r, G, typing, classes, nodes, props):
         "full_iri_sel": ["http://e/n0", "<http://sh/S1>"],
         "at_in_iri": ["<http://e/u@h>", "<http://sh/S1>"],
         "lit_focus_term": ['{FOCUS ex:p0 "v1"}', "<http://sh/S1>"],
+        "label_unclosed": ["ex:n0", "<http://sh/S1"],
+        "label_unopened": ["ex:n0", "sh:S1>"],
+        "sel_unclosed": ["<http://e/n0", "<http://sh/S1>"],
+        "focus_token_unopened": ["{FOCUS ex:p0 http://e/n0>}", "<http://sh/S1>"],
     }
     if m in bad:
         pairs.insert(r.randint(0, len(pairs)), bad[m])
@@ -929,7 +936,7 @@ def gen_cases(tier, rnd, n):
 def evaluate(cases, bs, run, findings, rnd, do_vm=True):
     impl = core.pool_map(impl_case, cases, chunksize=16)
     res = {"spec_fail": [], "corr_fail": [], "known_hits": collections.Counter(), "raised": collections.Counter(),
-           "dom": 0, "domc": 0, "variant": 0, "nontrivial": 0, "monitor": [], "modes": collections.Counter(),
+           "dom": 0, "domc": 0, "variant": 0, "nontrivial_keys": set(), "monitor": [], "modes": collections.Counter(),
            "selectors": collections.Counter(), "render_mismatch": [], "den_mismatch": [], "outcomes": collections.Counter(),
            "vm_cases": [], "order_same": 0, "order_diff": 0}
     mb = core.ModelBin() if bs.model_ok else None
@@ -1000,6 +1007,10 @@ def evaluate(cases, bs, run, findings, rnd, do_vm=True):
                 if xs:
                     py[S] = sorted((x[0], x[1], x[2] if len(x) > 2 else "") for x in xs)
             cq = {S: sorted(v) for S, v in coq_den.items()}
+            if len(dedup(case["graph"])) != len(case["graph"]):
+                # a repeated statement: the graph is the same set of triples; compare the denotations as sets
+                py = {S: sorted(set(v)) for S, v in py.items()}
+                cq = {S: sorted(set(v)) for S, v in cq.items()}
             if obs["dict"][0] != "err" or obs["dict"][1] != "ctor":
                 if py != cq:
                     res["den_mismatch"].append({"case": case, "python": sorted(py.items()), "coq": sorted(cq.items())})
@@ -1008,7 +1019,7 @@ def evaluate(cases, bs, run, findings, rnd, do_vm=True):
         if domc:
             res["domc"] += 1
         if den and any(len(v) > 0 for v in den.values()):
-            res["nontrivial"] += 1
+            res["nontrivial_keys"].add(json.dumps([concrete(case), case["graph"]], sort_keys=True))
         if verdict is None:
             continue
         if isinstance(verdict, tuple) and verdict[0] == "raised":
@@ -1120,11 +1131,11 @@ def run(tier, seed, replay=None):
                         "triples": len(c["graph"]), "kind": c["kind"]})
     run.coverage.update({
         "evaluations": len(cases),
-        "distinct_nontrivial": res["nontrivial"],
+        "distinct_nontrivial": len(res["nontrivial_keys"]),
         "rule": "one evaluation = one (graph, target specification) pair run through the real Shaper (constructor, "
                 "_launch_instance_tracker, shex_graph) and through Model.Selectors.run; non-trivial = the specification "
-                "denotes at least one node (measured with the Python oracle); cases are drawn independently from a "
-                "48-bit sub-seed each",
+                "denotes at least one node (measured with the Python oracle); distinct = distinct (arguments, triples) "
+                "pairs among those (counted with a set)",
         "exhaustive": False,
         "in_C10_dom": res["dom"], "in_C10_dom_count": res["domc"], "layout_variants": res["variant"],
         "target_modes": dict(res["modes"]), "selector_kinds": dict(res["selectors"]),
